@@ -110,8 +110,8 @@ let () =
       let early = ref false and lifo = ref false in
       while not (chalted !s) && !n < cap do
         if mode = "trace" then begin
-          if until_exit_undone !s then (early := true; print_endline "#EARLY-EXIT");
-          if lifo_delay !s && not !lifo then (lifo := true; print_endline "#LIFO-DELAY")
+          if until_exit_undone !s then (early := true; Printf.printf "#EARLY-EXIT %d\n" !n);
+          if lifo_delay !s && not !lifo then (lifo := true; Printf.printf "#LIFO-DELAY %d\n" !n)
         end else begin
           let sg = signature !s in
           if not (Hashtbl.mem seen sg) then begin
